@@ -4,7 +4,7 @@ from __future__ import annotations
 import ast
 import re
 
-from vk import astx, align
+from vk import astx, align, seqeval
 from vk.algebra import Normalizer, bool_key, literals, spec_rat, spec_guard, NotClosedForm
 from vk.loader import AnalysisError
 from rules import c12
@@ -71,35 +71,68 @@ def g1_apportionment(ctx):
                 if ks == {("atom", "self.blocs")} and blocs_ok:
                     ks = {("keys", "self.bloc_voter_prop")}
                 oka, why = align.aligned(ks, ps)
+                if not oka:
+                    # both lists reduce to equally long per-bloc blocks over the same bloc order
+                    K, P = seqeval.evaluate_any(prog, f, keys), seqeval.evaluate_any(prog, f, props)
+                    canon = {"self.blocs", "list(self.bloc_voter_prop.keys())", "self.bloc_voter_prop.keys()", "self.bloc_voter_prop"}
+                    if K is not None and P is not None and len(K.elems) == len(P.elems) and (K.source == P.source or (blocs_ok and K.source in canon and P.source in canon)):
+                        oka, why = True, f"per-bloc blocks of {len(K.elems)} over {K.source} / {P.source}"
                 shapes.add("blocs" if ks == {("keys", "self.bloc_voter_prop")} else "types")
             ctx.check(okm and okt and okz and oka, f, c, f"{f.short}: counts = Huntington-Hill of number_of_ballots by the proportions, keyed in the proportions' order",
                       why[:160], f"`{astx.u(c)}`: method ok={okm}, total is the number_of_ballots parameter={okt}, dict(zip(keys, counts))={okz}, keys/proportions aligned={oka} ({why[:120]})")
     if n < 7:
         ctx.vanished("apportionment call sites" + ": " + f"only {n} apportionment calls in generate_profile* (floor 7)")
-    # crossover proportions
+    # crossover proportions: the (bloc, kind) list and the share list reduced to per-bloc blocks, whatever their spelling
     for qn in ("AlternatingCrossover.generate_profile", "CambridgeSampler.generate_profile"):
         f = prog.find_func(qn)
-        vp = astx.unique_def(f.node, "voter_props")
-        vt = astx.unique_def(f.node, "voter_types")
-        coh = astx.unique_def(f.node, "cohesion_parameters")
-        good = False
-        d = ""
-        if isinstance(vp, ast.ListComp) and isinstance(vp.elt, ast.IfExp) and isinstance(vt, ast.ListComp):
-            b, t = [astx.u(x) for x in vp.generators[0].target.elts]
-            N = Normalizer(f.node, inline=False, rename=lambda e: {f"cohesion_parameters[{b}]": "C", f"self.bloc_voter_prop[{b}]": "S"}.get(astx.u(e)))
+        pm = astx.parents(f.node)
+        calls = [c for c in astx.calls_in(f.node, "compute") if prog.resolve_expr(f.module, c.func) == "apportionment.methods.compute"]
+        zp = pm.get(calls[0]) if len(calls) == 1 else None
+        if not (isinstance(zp, ast.Call) and astx.u(zp.func) == "zip" and len(zp.args) == 2 and len(calls[0].args) > 1):
+            ctx.violated(f, f.node, f"{f.short}: voter-type shares", "no dict(zip(types, compute(..., shares, n))) apportionment found")
+            continue
+        K = seqeval.evaluate_any(prog, f, zp.args[0])
+        P = seqeval.evaluate_any(prog, f, calls[0].args[1])
+        if K is None or P is None:
+            ctx.undecided(f, calls[0], f"{f.short}: voter-type shares", f"the construction of `{astx.u(zp.args[0])[:40]}` / `{astx.u(calls[0].args[1])[:40]}` is not a per-bloc block this rule can evaluate")
+            continue
+        canon = {"self.blocs", "list(self.bloc_voter_prop.keys())", "self.bloc_voter_prop.keys()", "self.bloc_voter_prop"}
+        same_src = (K.source in canon and P.source in canon and blocs_ok) or K.source == P.source
+        labels = [astx.const(e.elts[1]) if isinstance(e, ast.Tuple) and len(e.elts) == 2 and astx.is_name(e.elts[0], K.var) and astx.is_const(e.elts[1]) else None for e in K.elems]
+
+        def rn(e, v=P.var, g=P.func):
+            t = astx.u(e)
+            if t == f"self.bloc_voter_prop[{v}]":
+                return "S"
+            if t == f"self.cohesion_parameters[{v}][{v}]":
+                return "C"
+            if isinstance(e, ast.Subscript) and isinstance(e.value, ast.Name) and astx.is_name(e.slice, v):
+                dc = astx.unique_def(g.node, e.value.id)
+                if isinstance(dc, ast.DictComp) and len(dc.generators) == 1 and isinstance(dc.generators[0].target, ast.Name) and astx.is_name(dc.key, dc.generators[0].target.id):
+                    if astx.u(seqeval.subst(dc.value, {dc.generators[0].target.id: ast.Name(id=v, ctx=ast.Load())})) == f"self.cohesion_parameters[{v}][{v}]":
+                        return "C"
+            return None
+        N = Normalizer(P.func.node, inline=True, rename=rn)
+        want = {"bloc": spec_rat("C * S"), "cross": spec_rat("(1 - C) * S")}
+        got = []
+        good = same_src and len(K.elems) == len(P.elems) == 2 and sorted(map(str, labels)) == ["bloc", "cross"]
+        for lab, pe in zip(labels, P.elems):
             try:
-                good = N.rat(vp.elt.body).equals(spec_rat("C * S")) and N.rat(vp.elt.orelse).equals(spec_rat("(1 - C) * S")) \
-                    and bool_key(N.guard(vp.elt.test)) in (f"eq('bloc', {t})", f"eq({t}, 'bloc')") and astx.u(vp.generators[0].iter) == "voter_types"
-            except NotClosedForm:
+                r = N.rat(pe)
+                got.append(f"{lab}: {r.key()}")
+                good = good and lab in want and r.equals(want[lab])
+            except NotClosedForm as e:
+                got.append(f"{lab}: {e}")
                 good = False
-            types = [astx.u(vt.elt), [astx.u(g.iter) for g in vt.generators]]
-            good = good and re.fullmatch(r"\(\w+, \w+\)", types[0]) is not None and types[1][1] == "['bloc', 'cross']"
-            good = good and isinstance(coh, ast.DictComp) and re.fullmatch(r"self\.cohesion_parameters\[(\w+)\]\[\1\]", astx.u(coh.value)) is not None
-            d = astx.u(vp)[:120]
-        ctx.check(good, f, vp or f.node, f"{f.short}: voter-type shares = cohesion*share (bloc) and (1-cohesion)*share (cross), own cohesion", d,
-                  f"voter-type proportions are `{d}`")
-        uses = sorted({astx.u(n.slice) for n in astx.walk_own(f.node) if isinstance(n, ast.Subscript) and astx.u(n.value) == "ballots_per_type"})
-        ctx.check(uses == ["(bloc, 'bloc')", "(bloc, 'cross')"], f, f.node, f"{f.short}: both voter types of the bloc are consumed by key", str(uses), f"ballots_per_type is read as {uses}")
+        d = f"per {K.source}: kinds {labels}; per {P.source}: shares {got}"
+        ctx.check(good, f, calls[0], f"{f.short}: voter-type shares = cohesion*share (bloc) and (1-cohesion)*share (cross), own cohesion, paired with their kind", d,
+                  f"voter types and their proportions are built as `{d}`; documented: bloc -> C*S, cross -> (1 - C)*S in the same order")
+        st = astx.stmt_of(calls[0], pm)
+        T = st.targets[0].id if isinstance(st, ast.Assign) and isinstance(st.targets[0], ast.Name) else None
+        uses = sorted({astx.u(n.slice) for n in astx.walk_own(f.node) if isinstance(n, ast.Subscript) and T is not None and astx.is_name(n.value, T)})
+        loopvars = {astx.assigned_names(l.target)[-1] for l in astx.walk_own(f.node) if isinstance(l, ast.For) and "self.blocs" in astx.u(l.iter)}
+        ctx.check(any(uses == [f"({b}, 'bloc')", f"({b}, 'cross')"] for b in loopvars), f, f.node, f"{f.short}: both voter types of the bloc are consumed by key", str(uses),
+                  f"the apportioned counts are read as {uses}")
 
 
 RANKING_DRAWS = {
@@ -305,7 +338,17 @@ def _carried_mutable_state(f, lp):
                 recv = None  # result table keyed by the bloc itself
         if recv is not None and recv not in inside_defs and recv not in ("self",):
             out.append((n, recv))
-    return out
+    # a pure output accumulator -- only ever appended/extended, never read inside the loop -- carries nothing between blocs
+    body = ast.Module(body=lp.body, type_ignores=[])
+    pmb = astx.parents(body)
+    keep = []
+    for n, recv in out:
+        reads = [x for x in ast.walk(body) if isinstance(x, ast.Name) and x.id == recv and isinstance(x.ctx, ast.Load)]
+        only_acc = all(isinstance(pmb.get(x), ast.Attribute) and pmb[x].attr in ("append", "extend") and isinstance(pmb.get(pmb[x]), ast.Call) and pmb[pmb[x]].func is pmb[x]
+                       and isinstance(pmb.get(pmb[pmb[x]]), ast.Expr) for x in reads)
+        if not only_acc:
+            keep.append((n, recv))
+    return keep
 
 
 def g5_no_cross_bloc_state(ctx):
@@ -356,7 +399,28 @@ RULES = [
 ]
 
 BGP = "src/votekit/ballot_generator.py"
+_AC_CTX = "class AlternatingCrossover(BallotGenerator):"
+_AC_INIT = "        super().__init__(cohesion_parameters=cohesion_parameters, **data)\n"
+_AC_PROPS_LOOP = """        voter_props = []
+        for b in self.blocs:
+            share = self.bloc_voter_prop[b]
+            voter_props.append(cohesion_parameters[b] * share)
+            voter_props.append((1 - cohesion_parameters[b]) * share)
+
+"""
+
+
+def _ac_types_in_constructor(order):
+    """AlternatingCrossover: voter types prepared once by the constructor, shares built by a loop of appends."""
+    return [
+        (BGP, (_AC_CTX, _AC_INIT, "\n"), _AC_INIT.rstrip("\n") + f"\n        self.voter_types = [(b, t) for b in self.blocs for t in {order!r}]"),
+        (BGP, (_AC_CTX, "        voter_types = [(b, type) for b in self.blocs", "        ballots_per_type = dict("), _AC_PROPS_LOOP),
+        (BGP, (_AC_CTX, "                voter_types,\n", "                apportion.compute("), "                self.voter_types,\n"),
+    ]
+
+
 FAULTS = [
+    ("AC voter types fixed by the constructor in the other order than the shares (seeded C16-r2-1)", _ac_types_in_constructor(["cross", "bloc"]), "C14.G1"),
     ("apportion by jefferson", [(BGP, "                apportion.compute(\"huntington\", bloc_props, number_of_ballots),\n            )\n        )\n\n        # dictionary to store preference profiles by bloc", "                apportion.compute(\"jefferson\", bloc_props, number_of_ballots),\n            )\n        )\n\n        # dictionary to store preference profiles by bloc")], "C14.G1"),
     ("apportion N-1", [(BGP, "                apportion.compute(\"huntington\", voter_props, number_of_ballots),\n            )\n        )\n\n        pp_by_bloc = {b: PreferenceProfile() for b in self.blocs}\n\n        for i, bloc in enumerate(self.blocs):\n            ballot_pool = []", "                apportion.compute(\"huntington\", voter_props, number_of_ballots - 1),\n            )\n        )\n\n        pp_by_bloc = {b: PreferenceProfile() for b in self.blocs}\n\n        for i, bloc in enumerate(self.blocs):\n            ballot_pool = []")], "C14.G1"),
     ("props sorted", [(BGP, "        bloc_props = list(self.bloc_voter_prop.values())\n        ballots_per_block = dict(\n            zip(\n                self.blocs,\n                apportion.compute(\"huntington\", bloc_props, number_of_ballots),\n            )\n        )\n\n        pref_profile_by_bloc = {}\n\n        for i, bloc in enumerate(self.blocs):\n            # number of voters in this bloc\n            num_ballots = ballots_per_block[bloc]\n            ballot_pool = [Ballot()] * num_ballots\n            pref_intervals = self.pref_intervals_by_bloc[bloc]\n            zero_cands = set(\n                it.chain(*[pi.zero_cands for pi in pref_intervals.values()])\n            )\n\n            slate_to_non_zero_candidates",
@@ -384,4 +448,6 @@ FAULTS += [
     ("pool shared by blocs", [(BGP, "        for i, bloc in enumerate(self.blocs):\n            ballot_pool = []\n            num_bloc_ballots", "        ballot_pool = []\n        for i, bloc in enumerate(self.blocs):\n            num_bloc_ballots")], "C14.G5"),
     ("combine skips zero sets of zero-share slates", [(PI, "    zero_cands = frozenset.union(*[pi.zero_cands for pi in intervals])", "    zero_cands = frozenset.union(*[pi.zero_cands for pi, prop in zip(intervals, proportions) if prop > 0] or [frozenset()])")], "C14.G5"),
 ]
-BENIGN = []
+BENIGN = [
+    ("AC voter types fixed by the constructor, shares by a loop of appends, same order", _ac_types_in_constructor(["bloc", "cross"])),
+]
